@@ -204,10 +204,25 @@ def stopped_while_enabling(check, j):
     return g, [{"kind": "conn-close", "src": "S", "nth": 2, "action": "open:s_done"}]
 
 
+def loop_disabled_by_constant(check, j):
+    """A loop step disabled by a constant in the workflow file (every spelling of false the bool type has): none of its items may
+    run, and the step that needs the loop's result must not run either."""
+    rng = random.Random(derive_seed(check.seed, "c04-loopconst", j))
+    v = [False, "false", "no", "off", 0, "0", "n", "FALSE", "disabled"][j % 9]
+    sub = gen.sub_program("sub.yaml", rng.choice([1, 2]))
+    loop = Step("loop", "foreach", sub=sub, items=Expr(In("items")), parallelism=rng.choice([1, 2]))
+    loop.fields["enabled"] = v
+    after = gen.plugin_step("after", Expr(In("tag")), wait_for=Expr(Ref("loop", "outputs", "success")))
+    steps = [loop, after]
+    rng.shuffle(steps)
+    outs = {"ran": {"d": Expr(Ref("loop", "outputs", "success", "data")), "a": gen.tagref("after")}, "skipped": {"m": Expr(Ref("loop", "disabled", "output", "message"))}}
+    return {"program": Program(steps, outs, gen.BASE_INPUT), "scripts": gen.make_scripts(steps, {}), "input": gen.base_input(rng, 2), "shape": "loop-disabled-by-constant/%r" % (v,), "outcome": {"loop": "disabled"}}
+
+
 def run(check):
     check.rule = ("a failing (error/alt/crash/drop/deploy failure) or disabled step placed at every position of 6 shapes (enumerated), the two-hop "
                   "stop-before-start construction, a loop item ending in another declared output with a step needing the loop's success, a step enabled by the enabling result "
-                  "of a disabled step, a step stopped while it waits for its deployment configuration or for its `enabled` value (with consumers of its deploy_failed / disabled / enabling results), plus generated programs; delays between failure notification and dependants via random plans; "
+                  "of a disabled step, a loop disabled by a constant in every spelling of false, the provider driven directly with the stop condition delivered just before the starting input, a step stopped while it waits for its deployment configuration or for its `enabled` value (with consumers of its deploy_failed / disabled / enabling results), plus generated programs; delays between failure notification and dependants via random plans; "
                   "oracle: set of plugin executions logged at the plugin boundary is a subset of the reference's may-run set, disabled steps expose "
                   "disabled.output through !ordisabled; non-trivial = at least one step must not run; distinct = (shape@position:kind, executed set)")
     check.assumptions = ["one-hop stop_if (stop source also feeds the target's input) is schedule dependent and not asserted"]
@@ -225,6 +240,8 @@ def run(check):
                     g["shape"] = "two_hop_stop/targeted"
                     sites = [{"point": pt, "hit": h + 1, "ms": d} for h, d in enumerate((d1, d2, d3)) if d]
                     targeted.append((g, {"sites": sites, "record": True} if sites else None))
+    for j in range(check.pick(18, 90)):
+        gs.append(loop_disabled_by_constant(check, j))
     for j in range(check.pick(24, 200)):
         gs.append(loop_other_output(check, j))
         gs.append(chained_enablement(check, j))
@@ -273,8 +290,31 @@ def run(check):
                 stats["stopped_before_start"] += 1
         check.sample({"case": cid, "shape": g["shape"], "must_not_run": must_not, "executed": ran})
 
+    # the step provider driven directly: the step is deployed and enabled and waits for its starting input; its stop condition is
+    # delivered and, in the next instant, its starting input: the plugin must not be executed and the step ends closed
+    from . import c12
+    direct = []
+    for j in range(check.pick(60, 400)):
+        sn = ["success", "hang-obey", "error-output"][j % 3]
+        seq = [["D", "E1", "Z", "X", "S", "Z", "Z", "F"], ["D", "E1", "Z", "Z", "X", "S", "Z", "F"], ["D", "E1", "Z", "X", "S0", "Z", "Z", "F"], ["Dc", "E1", "Z", "X", "Sd", "Z", "Z", "F"]][(j // 3) % 4]
+        direct.append({"id": "c04-p%04d" % j, "mode": "provider", "scripts": {"P": c12.SCRIPTS[sn]}, "extra": {"actions": c12.to_actions(seq), "src": "P"}, "_sn": sn, "_seq": seq})
     with harness.Runner() as rn:
         runfam.run_and_monitor(check, rn, items, {"C04"}, on_result=on_result, monitor=monitor)
+        pout = rn.run_cases([{k: v for k, v in c.items() if not k.startswith("_")} for c in direct], per_case_timeout=60)
+    for c in direct:
+        o = pout.get(c["id"], {})
+        check.count()
+        if "result" not in o:
+            check.inconclusive_case(c["id"], str(o.get("death", {}).get("key")))
+            continue
+        ev = o["result"].get("events") or []
+        waiting = [e["seq"] for e in ev if e["kind"] == "callback" and "starting" in str(e.get("data"))]
+        started = [e for e in ev if e["kind"] == "exec-start"]
+        if started:
+            check.report("exec@stopped-before-start:provider", "behaviour %s, actions %s: the stop condition was delivered before the starting input, yet the plugin was executed" % (c["_sn"], c["_seq"]),
+                         {"case": {k: v for k, v in c.items() if not k.startswith("_")}, "events": [(e["seq"], e["kind"], e["src"]) for e in ev][:60]})
+        stats["stop_then_start_sequences"] = stats.get("stop_then_start_sequences", 0) + 1
+        check.nontrivial("provider|%s|%s" % (c["_sn"], "".join(c["_seq"])))
     check.extra.update(stats)
 
 
